@@ -5,6 +5,8 @@ import (
 	"math/rand"
 	"sort"
 	"strings"
+	"sync"
+	"sync/atomic"
 	"time"
 
 	"github.com/smart-core-os/sc-golang/pkg/resource"
@@ -325,37 +327,50 @@ func runMachine(f lib.Flags, res *lib.Result, drv *lib.Driver) {
 			failed = true
 			return
 		}
-		for i, c := range cases {
-			parts := strings.SplitN(ans[i], "|", 2)
-			modelOuts := []string{}
-			if len(parts) == 2 && parts[0] != "-" {
-				modelOuts = strings.Split(parts[0], ";")
+		// the runs are independent (each has its own goroutine and channels) and mostly wait for goroutine
+		// hand-overs: run them on a few workers, record in order
+		const chunk = 512
+		for lo := 0; lo < len(cases) && !failed; lo += chunk {
+			hi := lo + chunk
+			if hi > len(cases) {
+				hi = len(cases)
 			}
-			obs := c.runCode(modelOuts)
-			if obs.MaxRecv > maxRecv {
-				maxRecv = obs.MaxRecv
-			}
-			nrecv := 0
-			for _, mv := range c.Moves {
-				if mv != "e" {
-					nrecv++
+			obss := make([]machineObs, hi-lo)
+			parallelDo(hi-lo, func(j int) {
+				parts := strings.SplitN(ans[lo+j], "|", 2)
+				modelOuts := []string{}
+				if len(parts) == 2 && parts[0] != "-" {
+					modelOuts = strings.Split(parts[0], ";")
+				}
+				obss[j] = cases[lo+j].runCode(modelOuts)
+			})
+			for j, obs := range obss {
+				i, c := lo+j, cases[lo+j]
+				if obs.MaxRecv > maxRecv {
+					maxRecv = obs.MaxRecv
+				}
+				nrecv := 0
+				for _, mv := range c.Moves {
+					if mv != "e" {
+						nrecv++
+					}
+				}
+				code := obs.answer()
+				if obs.RecvBlock != "" || obs.DrainError != "" {
+					code += "!" + obs.RecvBlock + obs.DrainError
+				}
+				tie.Record(showView(c.Start)+"/"+strings.Join(c.Moves, " "), nrecv >= 2, c, ans[i], code)
+				tie.Count(fmt.Sprintf("inputs=%d", min(nrecv, 8)))
+				c.monitor(mon, obs)
+				if obs.RecvBlock != "" || obs.DrainError != "" || strings.Contains(code, "timeout") {
+					slow++
 				}
 			}
-			code := obs.answer()
-			if obs.RecvBlock != "" || obs.DrainError != "" {
-				code += "!" + obs.RecvBlock + obs.DrainError
-			}
-			tie.Record(showView(c.Start)+"/"+strings.Join(c.Moves, " "), nrecv >= 2, c, ans[i], code)
-			tie.Count(fmt.Sprintf("inputs=%d", min(nrecv, 8)))
-			c.monitor(mon, obs)
-			if obs.RecvBlock != "" || obs.DrainError != "" || strings.Contains(code, "timeout") {
-				slow++
-				if slow > 8 {
-					// every such run costs seconds: the correspondence is broken beyond doubt, stop here
-					tie.Fail(fmt.Errorf("aborted after %d runs in which the goroutine did not respond within %s (last: %s)", slow, stepTimeout, code))
-					failed = true
-					return
-				}
+			if slow > 8 {
+				// every such run costs seconds: the correspondence is broken beyond doubt, stop here
+				tie.Fail(fmt.Errorf("aborted after %d runs in which the goroutine did not respond within %s", slow, stepTimeout))
+				failed = true
+				return
 			}
 		}
 	}
@@ -391,6 +406,27 @@ func runMachine(f lib.Flags, res *lib.Result, drv *lib.Driver) {
 	process(buf)
 	res.Extra["mergeExcess_exhaustive_runs"] = exhaustiveN
 	res.Extra["mergeExcess_max_input_accept_latency_us"] = maxRecv.Microseconds()
+}
+
+// parallelDo runs f(0..n-1) on a few workers and waits for all of them.
+func parallelDo(n int, f func(i int)) {
+	const workers = 6
+	var wg sync.WaitGroup
+	var next atomic.Int64
+	for w := 0; w < workers; w++ {
+		wg.Add(1)
+		go func() {
+			defer wg.Done()
+			for {
+				i := int(next.Add(1)) - 1
+				if i >= n {
+					return
+				}
+				f(i)
+			}
+		}()
+	}
+	wg.Wait()
 }
 
 func min(a, b int) int {
